@@ -316,6 +316,104 @@ def scenario(threshold_name, hist, crash_offset, cont, second, advance=True):
     return [(x, crash_cls, residue) for x in sym], (crash_cls, residue)
 
 
+def scenario_fault(threshold_name, hist, fault, cont, second):
+    """a transient I/O error instead of a crash: the last event of `hist` meets one failing os.fsync (the record is already in
+    the file) or one failing write (nothing of it is); the agent lives on (its catch-all swallows the error), more events follow,
+    then optionally a restart and more events.  Numbers must stay unique and consecutive."""
+    s = Sim(THRESHOLDS[threshold_name], True)
+    s.restart()
+    expected = 0
+    for i, ev in enumerate(hist):
+        if i == len(hist) - 1:
+            s.fs.fault = fault
+            n = len(s.problems)
+            s.event(ev)
+            fired = s.fs.fault is None
+            s.fs.fault = None
+            del s.problems[n:]            # the callback raising is the injected error itself
+            if writes(ev) and not (fired and fault == 'write'):
+                expected += 1
+        else:
+            s.event(ev)
+            expected += 1 if writes(ev) else 0
+    for ev in cont:
+        s.event(ev)
+        expected += 1 if writes(ev) else 0
+    if second is not None:
+        if not s.restart():
+            return [(p, fault + '-error', 'complete') for p in s.problems]
+        for ev in second:
+            s.event(ev)
+            expected += 1 if writes(ev) else 0
+    sym = list(s.problems) + audit(s.snapshot(), {expected}, [])
+    return [(x, fault + '-error', 'complete') for x in sym]
+
+
+def task_fault(args):
+    thr, hist, conts, seconds = args[1:]
+    out = []
+    n = 0
+    classes = set()
+    for fault in ('fsync', 'write'):
+        for cont in conts:
+            for sec in seconds:
+                sym = scenario_fault(thr, hist, fault, cont, sec)
+                n += 1
+                classes.add(('fault', thr, fault, len(hist), len(cont), sec is not None, bool(sym)))
+                for s_, cls, residue in sym:
+                    out.append(('C20|%s|%s|%s' % (cls, residue, s_),
+                                {'threshold': thr, 'history': list(hist), 'fault': fault, 'crash_offset': None, 'continuation': list(cont),
+                                 'second': None if sec is None else list(sec), 'advance': True}))
+    return n, out, classes
+
+
+PEER_ADDRS = ('10.0.0.2', '2001:db8::2', '2001:db8:0:0::2', '2001:DB8::2', '::ffff:10.0.0.2')
+AGENT_HISTORY = [('TICK', 0), ('CONN_REFUSED', 0), ('TICK', 0), ('CONN_OK', 0), ('RX', 0, 'OPEN_OK'), ('RX', 0, 'KA'), ('RX', 0, 'UPD'),
+                 ('RX', 0, 'UPD_MALFORMED'), ('RX', 0, 'RR'), ('RX', 0, 'KA'), ('PEER_CLOSE', 0),
+                 ('TICK', 0), ('CONN_OK', 0), ('RX', 0, 'OPEN_OK'), ('RX', 0, 'KA'), ('RX', 0, 'NOTIF_CEASE')]
+LOGGING = ('on_update_error', 'update_received', 'keepalive_received', 'send_open', 'open_received', 'route_refresh_received',
+           'notification_received', 'on_connection_lost', 'on_connection_failed')
+
+
+def agent_path(addr):
+    """the log behind a real agent: BGPPeering / FSM / BGP built by prepare_twisted_service() with the DefaultHandler, peer
+    address given in several textual forms; every callback the agent makes must be one record"""
+    from .. import world as W
+    from ..alphabet import session_messages
+    import yabgp.handler.default_handler as dh
+    fs = fakefs.FakeOS()
+    dh.os = fs
+    dh.open = fs.open_
+    _conf_sig[0] = None
+    CONF.set_override('write_dir', '/data/bgp/', group='message')
+    CONF.set_override('write_msg_max_size', 400, group='message')
+    CONF.set_override('write_keepalive', True, group='message')
+    calls = []
+
+    def factory(world):
+        h = dh.DefaultHandler()
+        for name in LOGGING:
+            def wrap(orig, name=name):
+                def f(*a, **k):
+                    calls.append(name)
+                    return orig(*a, **k)
+                return f
+            setattr(h, name, wrap(getattr(h, name)))
+        return h
+    W._last_overrides[0] = None
+    w = W.AgentWorld({'remote_addr': addr, 'write_disk': True}, handler_factory=factory)
+    m = session_messages()
+    for ev in AGENT_HISTORY:
+        w.step(ev, m)
+    W._last_overrides[0] = None
+    path = '/data/bgp/' + addr.lower() + '/msg/'
+    snap = {k[len(path):]: v for k, v in fs.files.items() if k.startswith(path)}
+    sym = audit(snap, {len(calls)}, [])
+    if w.exceptions:
+        sym.append('exception escaped: %r' % (w.exceptions[0],))
+    return sym, len(calls)
+
+
 def last_record_len(threshold_name, hist, advance=True):
     s = Sim(THRESHOLDS[threshold_name], advance)
     s.restart()
@@ -350,6 +448,8 @@ def task_payload(names):
 def task(args):
     if args[0] == 'payload':
         return task_payload(args[1])
+    if args[0] == 'fault':
+        return task_fault(args)
     thr, hist, conts, seconds, advance, all_offsets = args
     out = []
     n = 0
@@ -445,12 +545,22 @@ def run(tier, seed):
         for thr in THRESHOLDS:
             for h in (('big_update',), ('update_received', 'big_update'), ('big_update', 'update_received')):
                 tasks.append((thr, h, conts[:1 + len(calpha)], [None, ('update_received',)], True, False))
+    # transient I/O errors (one failing fsync / one failing write) on the last event of every history of length 1..2
+    for thr in THRESHOLDS:
+        for h in [x for x in hists if 1 <= len(x) <= 2]:
+            tasks.append(('fault', thr, h, [c for c in conts if 1 <= len(c) <= 2], [None, ('update_received',)]))
     # what the decoder really hands to the handler: one scenario per decodable message, clean restart and two torn offsets
     decoded = decoded_payload_events()
     for i in range(0, len(decoded), 8):
         tasks.append(('payload', decoded[i:i + 8]))
     results = explore.pmap(task, tasks, chunk=1)
     explore.close_pool()
+    agent_events = 0
+    for addr in PEER_ADDRS:
+        sym, ncalls = report.fresh(agent_path, addr)
+        agent_events += ncalls
+        for s_ in sym:
+            col.add('C20|agent-path|%s|%s' % ('ipv4' if ':' not in addr else 'ipv6', s_), {'agent_path': addr}, {'peer_address': addr, 'callbacks': ncalls})
     total = 0
     classes = set()
     for n, out, cl_ in results:
@@ -464,11 +574,13 @@ def run(tier, seed):
         'rule': 'histories: every sequence of <= %d handler callbacks over %s (thorough: full alphabet to length 2, length 3 over the 5 callbacks that write differently) x rotation thresholds %s; a restart after the history, '
                 'clean or with the last record torn at every byte offset (0 .. len-1, i.e. including "nothing" and "complete line without its '
                 'newline"; a rotation that followed the torn write is undone); then every continuation of <= %d events, optionally a '
-                'second clean restart and more events; final audit of all files. Clock advancing and frozen (equal timestamps). '
+                'second clean restart and more events; final audit of all files. Clock advancing and frozen (equal timestamps). Plus: one failing os.fsync / one failing write on the last event of every history of length 1..2 (the agent lives on), continuations, optional restart; plus one scenario per message of the unit tests the decoder accepts (the payload is the decoder\'s output). '
                 'distinct_nontrivial = distinct (threshold, history length, crash class, residue class, continuation length, second restart)'
                 % (hl, alpha, list(THRESHOLDS), cl),
         'samples': [{'threshold': t[0], 'history': list(t[1]), 'crash': 'clean and every byte offset of the last record',
-                     'continuations': [list(c) for c in report.pick(t[2], seed, 2)], 'clock_advances': t[4]} for t in report.pick([x for x in tasks if x[0] != 'payload'], seed, 3)],
+                     'continuations': [list(c) for c in report.pick(t[2], seed, 2)], 'clock_advances': t[4]} for t in report.pick([x for x in tasks if x[0] not in ('payload', 'fault')], seed, 3)],
+        'agent_path_callbacks': agent_events, 'agent_path_peer_addresses': list(PEER_ADDRS),
+        'transient_io_error_histories': sum(1 for x in tasks if x[0] == 'fault'),
         'decoded_payload_events': len(decoded),
         'histories': len(hists), 'continuations': len(conts), 'shim_vs_real_directory_histories': nbind,
         'exhaustive': True, 'violation_keys': summary,
@@ -485,6 +597,24 @@ def run(tier, seed):
 def replay(path):
     d = json.load(open(path))
     w = d['witness']
+    if w.get('agent_path'):
+        a, b = report.twice(agent_path, w['agent_path'])
+        if a != b:
+            print('HARNESS-ERROR: replay is not deterministic')
+            return 2
+        keys = ['C20|agent-path|%s|%s' % ('ipv4' if ':' not in w['agent_path'] else 'ipv6', x) for x in a[0]]
+        print('peer address', w['agent_path'], 'callbacks', a[1], 'symptoms', keys)
+        return 1 if d['key'] in keys else 0
+    if w.get('fault'):
+        a, b = report.twice(scenario_fault, w['threshold'], tuple(w['history']), w['fault'], tuple(w['continuation']),
+                            None if w['second'] is None else tuple(w['second']))
+        if a != b:
+            print('HARNESS-ERROR: replay is not deterministic')
+            return 2
+        keys = ['C20|%s|%s|%s' % (c, r, x) for x, c, r in a]
+        print('scenario:', w)
+        print('symptoms:', keys)
+        return 1 if d['key'] in keys else 0
     a, b = report.twice(scenario, w['threshold'], tuple(w['history']), w['crash_offset'], tuple(w['continuation']),
                         None if w['second'] is None else tuple(w['second']), w['advance'])
     if a != b:
